@@ -3,6 +3,13 @@ from ..core.util import sha
 from . import ir
 
 
+def _is_expression(v):
+    """`-1` is not a literal in Python ("numeric literals do not include a sign; a phrase like -1 is actually an
+    expression composed of the unary operator '-' and the literal 1", language reference 2.4.4): such an argument
+    is a non-literal expression, i.e. a run-time binding in the sense of DESIGN.md 4.1 (b)."""
+    return isinstance(v, (int, float)) and not isinstance(v, bool) and (v < 0 or repr(v).startswith("-"))
+
+
 class Cones:
     def __init__(self, prog, load_fp=None):
         """load_fp(path) -> fingerprint of whatever the store's committed path serves (for loads of paths that
@@ -80,6 +87,8 @@ class Cones:
         bind = {}
         pos = 0
         for a in it["args"]:
+            if a["k"] in ("lit", "kw") and _is_expression(a["v"]):
+                return None
             if a["k"] == "lit":
                 bind[pnames[pos]] = repr(a["v"])
                 pos += 1
